@@ -3,6 +3,7 @@
 Proof part (coq/props/C19.v): footer loader, thrift compact reader (skip path, list headers) and the bit-level helpers:
 `decode_total_safe` proved where the source checks (or would, with the proposed patches: cfg flags), refuted with closed
 witnesses where it does not.  gen/TablesFault.v (vlib/tables_fault.py) says which checks the source has now.
+P : lies in the two size fields of a data page header: outcome predicted by load_page_plain (coqc) vs the engine.
 W : every witness byte string of the refutations is replayed on the engine (`gverif sql` on a file made of it, `gv_pq`
     for the bit-level helpers); the outcome class, the panic site and the allocation size must be the model's.
 S : fault enumeration on valid files (the Gallina writer of C10 + /repo/testdata/parquet): every truncation, single-byte
@@ -608,6 +609,9 @@ def evaluate(wrap, items, klist, stats, viol, known, label):
         if cl[k][1] is None and c2[0] == "panic" and c2[1]:
             cl[k] = ("abort", c2[1], cl[k][2])
     stats["phase_seconds"][label].append(round(time.time() - t_a, 1))
+    for k in det_msg:
+        if not cl[k][2] and det_msg[k]:
+            cl[k] = (cl[k][0], cl[k][1], det_msg[k])
     for k, ((cid, path, fb, how, fn), (cls, site, msg)) in enumerate(zip(items, cl)):
         stats["outcomes"][cls] = stats["outcomes"].get(cls, 0) + 1
         stats["by_kind"].setdefault(label, {}).setdefault(cls, 0)
@@ -710,6 +714,66 @@ def stage_witnesses(wrap, gvpq, flags, klist, stats, viol, known):
     return {"n": len(plan) + len(bits), "mismatch": mism}
 
 
+# ---------------------------------------------------------------- P: page body loading, model vs engine
+def stage_pages(rng, wrap, gmodel, flags, klist, stats, viol, known):
+    """lies in uncompressed_page_size / compressed_page_size of the only data page of a required INT32 PLAIN column (v1 and
+    v2 pages): the outcome predicted by model/PqFooter.v load_page_plain (evaluated by coqc) vs the engine"""
+    chk = flags.get("page_copy_len_checked")
+    if chk is None:
+        return {"n": 0, "mismatch": [{"what": "page_copy_len_checked could not be scanned from page_reader.rs"}]}
+    items, params = [], []
+    for v2 in (0, 1):
+        n = 12
+        c = c10.gen_column(rng, "c0", "i32", "plain", False, "none", n)
+        c["pages"] = [n]
+        case = {"id": "pl%d" % v2, "v2": v2, "rgs": [n], "created_by": "gverif fault", "lvl": (8, 1), "cols": [c10.rid_column(n), c], "nrows": n}
+        m = json.loads(common.run_model(gmodel, "write", [c10.spec_line(case, "hex")])[0])
+        f = PqFile("pl%d" % v2, bytes.fromhex(m["hex"]))
+        if not f.pages:
+            continue
+        a, j, tree, e = f.pages[0]
+        size0 = f.chunks()[-1][1]
+        fl = {x[0]: x[2][2] for x in tree[1] if x[2][0] == "int"}
+        for (k, kind, path, v) in f.page_sites(0):
+            if path not in ((2,), (3,)):
+                continue
+            for lie in (-1, 0, v - 2, v + 2, 2 ** 31 - 1, -2 ** 31, 1):
+                nh = Ser(k, lie).ser(tree)
+                d = len(nh) - (j - a)
+                usz, csz = (lie, fl[3]) if path == (2,) else (fl[2], lie)
+                fb = f.page_lie(0, k, lie)
+                p = os.path.join(WDIR, "pl_%d_%d_%d.parquet" % (v2, path[0], lie))
+                open(p, "wb").write(fb)
+                items.append(("pl_%d_%d_%d" % (v2, path[0], lie), p, fb,
+                              "data page %s header field %d (%s) %d -> %d" % ("v2" if v2 else "v1", path[0], "uncompressed_page_size" if path == (2,) else "compressed_page_size", v, lie),
+                              "read_parquet"))
+                params.append((size0 + d, len(nh), usz, csz))
+    body = "From Coq Require Import NArith ZArith.\nFrom GV Require Import model.PqFooter.\nOpen Scope N_scope.\n" + \
+           "".join("Eval vm_compute in (load_page_plain %s %d %d (%d)%%Z (%d)%%Z).\n" % ("true" if chk else "false", cl_, off, u, cs)
+                   for (cl_, off, u, cs) in params)
+    rc, out = common.coq_eval("c19p", body)
+    preds = re.findall(r"p_out := (TOk \d+|TErr|TPanic \d+|TFuel);\s*p_alloc := (\d+)", out)
+    if rc != 0 or len(preds) != len(params):
+        return {"n": 0, "mismatch": [{"what": "model evaluation failed", "log": out[-600:]}]}
+    cl = evaluate(wrap, items, klist, stats, viol, known, "page-size-lies")
+    mism = []
+    for it, prm, (po, pa), (cls, site, msg) in zip(items, params, preds, cl):
+        if po == "TErr":
+            ok = cls == "error"
+        elif po.startswith("TOk"):
+            ok = cls in ("rows", "error")
+        elif po == "TPanic 6":
+            ok = cls in ("abort", "panic") and "page_reader.rs" in (site or "") and "copy_from_slice" in (msg or "")
+        elif po == "TPanic 7":
+            ok = cls in ("abort", "panic") and "page_reader.rs" in (site or "") and "attempt to add with overflow" in (msg or "")
+        else:
+            ok = False
+        if not ok:
+            mism.append({"case": it[3], "file_hex": it[2].hex(), "model_input": {"chunk_len": prm[0], "chunk_offset": prm[1], "uncompressed": prm[2], "compressed": prm[3]},
+                         "model_predicts": po, "engine": [cls, site, msg]})
+    return {"n": len(items), "mismatch": mism}
+
+
 # ---------------------------------------------------------------- S: valid files and their mutations
 COMBOS = [("i32", "plain", False, "none", 0), ("i32", "dict", True, "rand", 0), ("i64", "dbp", False, "none", 1), ("i32", "bss", True, "alt", 1),
           ("bool", "plain", True, "rand", 0), ("bool", "rle", False, "none", 1), ("utf8", "plain", True, "alt", 1), ("utf8", "dict", False, "none", 0),
@@ -751,7 +815,7 @@ def mutations(rng, f, tier):
     quick = tier == "quick"
     # truncations
     if small:
-        ks = list(range(n)) if not quick else sorted(set(rng.shuffle(list(range(n)))[:12] + [0, 4, 11, 12, n - 9, n - 8, n - 4, n - 1]))
+        ks = list(range(n)) if not quick else sorted(set(rng.shuffle(list(range(n)))[:8] + [0, 11, 12, n - 9, n - 8, n - 4, n - 1]))
     else:
         step = max(1, n // (12 if quick else 400))
         ks = sorted(set(list(range(0, n, step)) + list(range(max(0, n - (12 if quick else 600)), n))))
@@ -768,7 +832,7 @@ def mutations(rng, f, tier):
     if quick and small:
         pri = [k for k in idx if reg.get(k) in ("pagehdr", "levels", "dict", "trailer")]
         rest = [k for k in idx if k not in set(pri)]
-        idx = sorted(set(rng.shuffle(pri)[:28] + rng.shuffle(rest)[:16]))
+        idx = sorted(set(rng.shuffle(pri)[:22] + rng.shuffle(rest)[:12]))
     for k in idx:
         bb = bytearray(b)
         bb[k] ^= 0xFF
@@ -781,7 +845,12 @@ def mutations(rng, f, tier):
     # lies in the numeric fields of the footer and of the page headers of the last chunk
     if f.ok:
         sites = f.footer_sites()
-        pick = sites if (not quick or len(sites) <= 18) else [sites[i] for i in sorted(rng.shuffle(list(range(len(sites))))[:18])]
+        pick = sites if (not quick or len(sites) <= 14) else [sites[i] for i in sorted(rng.shuffle(list(range(len(sites))))[:14])]
+        # regression of the repaired schema/types.rs off-by-one (18c236890): root num_children beyond the schema list, always
+        for (k, kind, path, v) in sites:
+            if path == (2, "[0]", 5):
+                out.append(("lie-footer", "footer field 2/[0]/5 (int5) %d -> %d [regression 18c236890]" % (v, len(get_path(f.tree, (2,))[3])),
+                            f.rebuild(f.tree, target=k, value=len(get_path(f.tree, (2,))[3]))))
         for (k, kind, path, v) in pick:
             vals = [x for x in LIES.get(kind, LIES["int6"]) if x != v]
             if quick:
@@ -903,6 +972,9 @@ def run(ctx):
     tt = [time.time()]
     w = stage_witnesses(wrap, gvpq, flags, klist, stats, viol, known) if pr["ok"] else {"n": 0, "mismatch": []}
     tt.append(time.time())
+    pg = stage_pages(common.Rng(ctx["seed"] ^ 0x19), wrap, gmodel, flags, klist, stats, viol, known) if pr["ok"] else {"n": 0, "mismatch": []}
+    w = {"n": w["n"] + pg["n"], "mismatch": w["mismatch"] + pg["mismatch"]}
+    tt.append(time.time())
     s = stage_files(ctx, rng, wrap, gmodel, klist, stats, viol, known)
     tt.append(time.time())
     c = stage_csv(ctx, rng, wrap, klist, stats, viol, known)
@@ -925,7 +997,7 @@ def run(ctx):
             kid, what[0] if what else "", e["n"], ",".join(sorted(x for x in e["sites"] if x))[:160],
             (ex.get("mutation") or json.dumps(ex.get("gv_pq_case")))[:120]))
     if w["mismatch"]:
-        out["violations"].append({"what": "correspondence model (PqFooter.v / PqBits.v witnesses) vs engine no longer holds (%d of %d witnesses)" % (len(w["mismatch"]), w["n"]),
+        out["violations"].append({"what": "correspondence model (PqFooter.v / PqBits.v witnesses, page size lies) vs engine no longer holds (%d of %d cases)" % (len(w["mismatch"]), w["n"]),
                                   "replay": {"mismatches": w["mismatch"][:6], "source_flags": flags}, "no_input": not viol})
     if proof_broken:
         out["violations"].append({"what": "theorem(s) in %s no longer check" % PROPS,
